@@ -3,7 +3,7 @@
    worker — over every history of pool operations whose placements / loads are fresh. *)
 From Coq Require Import ZArith Bool List Lia ZifyBool Arith.
 Import ListNotations.
-From Verif Require Import Model.Val Model.Res Model.Worker Proofs.ResP Proofs.ResP2 Proofs.WorkerP Proofs.WorkerP2 Proofs.WorkerP3.
+From Verif Require Import Model.Val Model.Res Model.Worker Proofs.ResP Proofs.ResP2 Proofs.WorkerP Proofs.WorkerP2 Proofs.WorkerP3 Proofs.ResP4.
 Open Scope Z_scope.
 
 (* ---------- the dict of workers ---------- *)
@@ -42,7 +42,8 @@ Proof. intros Q wid ws W H E. rewrite Forall_forall in H. apply H. apply (pw_fin
 Lemma w_place_shape : forall t s w w' o, w_place t s w = (w', o) ->
   w_id w' = w_id w /\ (o = Ok tt -> w_placed w' = zset t s (w_placed w)).
 Proof.
-  intros t s w w' o H. unfold w_place in H. destruct (s_is_batch s).
+  intros t s w w' o H. unfold w_place in H. destruct (zmem t (w_placed w)); [inversion H; subst; split; auto; discriminate|].
+  destruct (s_is_batch s).
   - destruct (zfind (s_id s) (w_batches w)).
     + destruct (_ <? _); inversion H; subst; cbn; split; auto; discriminate.
     + destruct (s_bsize s <? 1); [inversion H; subst; split; auto; discriminate|].
@@ -90,8 +91,8 @@ Qed.
 Section Pool.
   Variable tbl : Z -> strategy.
 
-  Definition strat_wf (s : strategy) : Prop :=
-    nonneg_vec (s_req s) /\ pos_req (s_req s) /\ (s_is_batch s = true -> s = tbl (s_id s)).
+  (* one strategy object per batch identifier (the only hypothesis on strategies that is left) *)
+  Definition strat_wf (s : strategy) : Prop := s_is_batch s = true -> s = tbl (s_id s).
 
   Record PInv (P : pool) : Prop := {
     pi_ids : NoDup (map w_id (p_workers P));
@@ -101,10 +102,8 @@ Section Pool.
 
   Definition pop_ok (P : pool) (o : pop) : Prop :=
     match o with
-    | PPlace t strats es wid =>
-        zfind t (p_placed P) = None /\ Forall strat_wf strats /\ (forall s, es = Some s -> strat_wf s)
-    | PLoad p s wid =>
-        nonneg_vec (s_req s) /\ pos_req (s_req s) /\
+    | PPlace t strats es wid => Forall strat_wf strats /\ (forall s, es = Some s -> strat_wf s)
+    | PLoad p s wid =>      (* finding FG is not repaired: the profile must not be loaded there already *)
         forall W, In W (p_workers P) -> In (w_id W) (p_ids wid P) ->
                   zfind p (w_avail_prof W) = None /\ zfind p (w_pend_prof W) = None
     | _ => True
@@ -136,17 +135,19 @@ Section Pool.
     PInv (fst (p_place t strats es wid P)) /\
     (snd (p_place t strats es wid P) <> Ok true -> fst (p_place t strats es wid P) = P).
   Proof.
-    intros t strats es wid P HI (Hfr & Hs & He). unfold p_place.
+    intros t strats es wid P HI (Hs & He). unfold p_place.
+    destruct (zmem t (p_placed P)) eqn:Ezm; [cbn [fst snd]; split; [exact HI|reflexivity]|].
+    assert (Hfr : zfind t (p_placed P) = None) by (apply zmem_false_find; exact Ezm).
     destruct (p_choose strats es wid P) as [[[w [s|]]|]|e] eqn:Ec; cbn [fst snd]; try (split; [exact HI|reflexivity]).
     destruct (pw_find w (p_workers P)) as [W|] eqn:Ef; [|split; [exact HI|reflexivity]].
     assert (Hwf : strat_wf s).
     { destruct (p_choose_src _ _ _ _ _ _ Ec) as [X|X]; [apply He; exact X|rewrite Forall_forall in Hs; apply Hs; exact X]. }
-    destruct Hwf as (Hnn & Hpos & Htbl).
+    pose proof Hwf as Htbl.
     pose proof (pw_find_forall _ _ _ _ (pi_workers _ HI) Ef) as HW.
     pose proof (not_held_fresh _ _ _ _ HI Hfr Ef) as HfW.
     destruct (pw_find_id _ _ _ Ef) as [Hid _].
     destruct (w_place t s W) as [W' r] eqn:Ep.
-    destruct (winv_place tbl t s W W' r HW (conj HfW (conj Hnn (conj Hpos Htbl))) Ep) as [HW' Href].
+    destruct (winv_place tbl t s W W' r HW Htbl Ep) as [HW' Href].
     destruct (w_place_shape _ _ _ _ _ Ep) as [Hid' Hpl].
     destruct r as [[]|e]; cbn [fst snd].
     - split; [|intro X; congruence].
@@ -228,12 +229,13 @@ Section Pool.
 
   Lemma pinv_load : forall p s wid P, PInv P -> pop_ok P (PLoad p s wid) -> PInv (fst (p_load p s wid P)).
   Proof.
-    intros p s wid P HI (Hnn & Hpos & Hfresh). unfold p_load.
+    intros p s wid P HI Hfresh. unfold p_load. cbn [pop_ok] in Hfresh.
+    destruct (p_precheck s (p_ids wid P) (p_workers P)); [|exact HI].
     destruct (p_each (w_load p s) (p_ids wid P) (p_workers P)) as [ws r] eqn:E. cbn [fst].
     set (okW := fun W => zfind p (w_avail_prof W) = None /\ zfind p (w_pend_prof W) = None).
     assert (Hf : forall W W' o, WInv tbl W -> okW W -> w_load p s W = (W', o) ->
                  WInv tbl W' /\ w_id W' = w_id W /\ w_placed W' = w_placed W).
-    { intros W W' o HW [F1 F2] EW. destruct (winv_load tbl p s W W' o HW (conj F1 (conj F2 (conj Hnn Hpos))) EW) as [X _].
+    { intros W W' o HW [F1 F2] EW. destruct (winv_load tbl p s W W' o HW (conj F1 F2) EW) as [X _].
       destruct (w_load_shape _ _ _ _ _ EW). auto. }
     assert (Hok : forall i W, In i (p_ids wid P) -> pw_find i (p_workers P) = Some W -> okW W).
     { intros i W Hi Ef. destruct (pw_find_id _ _ _ Ef) as [Hid Hin]. apply Hfresh; [exact Hin|rewrite Hid; exact Hi]. }
@@ -241,6 +243,67 @@ Section Pool.
     constructor; cbn [p_workers p_placed]; [rewrite B; apply (pi_ids _ HI)|exact A|apply (pi_nd _ HI)|].
     intros t w. rewrite C. apply (pi_map _ HI).
   Qed.
+
+  (* ---- a refused pool-wide load changes nothing (/repo 0f42ab1) ---- *)
+  Lemma precheck_ok : forall s ids ws, p_precheck s ids ws = Ok tt ->
+    forall i, In i ids -> exists W, pw_find i ws = Some W /\ w_fits s W = true.
+  Proof.
+    intros s. induction ids as [|i0 ids IH]; intros ws H i Hi; [destruct Hi|]. cbn [p_precheck] in H.
+    destruct (pw_find i0 ws) as [W|] eqn:Ef; [|discriminate]. destruct (w_fits s W) eqn:Efit; [|discriminate].
+    destruct Hi as [<-|Hi]; [eauto|]. apply IH; assumption.
+  Qed.
+  Lemma w_load_fits_ok : forall p s W, WInv tbl W -> s_is_batch s = false -> nonneg_vec (s_req s) -> w_fits s W = true ->
+    snd (w_load p s W) = Ok tt.
+  Proof.
+    intros p s W HW Hb Hq Hfit. unfold w_fits in Hfit. rewrite Hb in Hfit. cbn [andb] in Hfit. rewrite orb_false_r in Hfit.
+    unfold w_load. destruct (proj1 (gt_iff_success (w_res W) (s_req s) (CProf p) (wi_nn _ _ HW) Hq) Hfit) as (R' & ->). reflexivity.
+  Qed.
+  Lemma p_each_load_all_ok : forall p s, s_is_batch s = false -> nonneg_vec (s_req s) ->
+    forall ids ws, NoDup ids -> Forall (WInv tbl) ws ->
+      (forall i, In i ids -> exists W, pw_find i ws = Some W /\ w_fits s W = true /\
+                                       zfind p (w_avail_prof W) = None /\ zfind p (w_pend_prof W) = None) ->
+      snd (p_each (w_load p s) ids ws) = Ok tt.
+  Proof.
+    intros p s Hb Hq. induction ids as [|i ids IH]; intros ws Hnd HW Hok; cbn [p_each]; [reflexivity|].
+    inversion Hnd as [|x l N1 N2]; subst.
+    destruct (Hok i (or_introl eq_refl)) as (W & Ef & Hfit & F1 & F2). rewrite Ef.
+    pose proof (w_load_fits_ok p s W (pw_find_forall _ _ _ _ HW Ef) Hb Hq Hfit) as Hs.
+    destruct (w_load p s W) as [W' r] eqn:EW. cbn [snd] in Hs. subst r.
+    destruct (winv_load tbl p s W W' (Ok tt) (pw_find_forall _ _ _ _ HW Ef) (conj F1 F2) EW) as [HW' _].
+    destruct (w_load_shape _ _ _ _ _ EW) as [Hid' _]. destruct (pw_find_id _ _ _ Ef) as [Hid _].
+    apply IH; [exact N2|apply pw_set_forall; assumption|].
+    intros j Hj. destruct (Hok j (or_intror Hj)) as (Wj & Ej & X). exists Wj. split; [|exact X].
+    rewrite pw_find_set_other; [exact Ej|]. rewrite Hid', Hid. intro; subst; contradiction.
+  Qed.
+  Theorem pool_load_refusal : forall p s wid P e, PInv P -> pop_ok P (PLoad p s wid) -> s_is_batch s = false ->
+    snd (p_load p s wid P) = Err e -> fst (p_load p s wid P) = P.
+  Proof.
+    intros p s wid P e HI Hfresh Hb. unfold p_load. cbn [pop_ok] in Hfresh.
+    destruct (p_precheck s (p_ids wid P) (p_workers P)) as [[]|e0] eqn:Epre; [|reflexivity].
+    pose proof (precheck_ok _ _ _ Epre) as Hfits.
+    assert (Hnd0 : NoDup (p_ids wid P)) by (apply nodup_p_ids; apply (pi_ids _ HI)).
+    remember (p_ids wid P) as ids0 eqn:Eids in *. destruct ids0 as [|i ids]; [cbn [p_each fst snd]; discriminate|].
+    (* the first worker decides: if it is refused nothing has changed yet, if it is served the request
+       has no negative quantity and every other worker, which passed the pre-check, is served too *)
+    pose proof Hnd0 as Hnd.
+    assert (Hall : forall j, In j (i :: ids) -> exists W, pw_find j (p_workers P) = Some W /\ w_fits s W = true /\
+                     zfind p (w_avail_prof W) = None /\ zfind p (w_pend_prof W) = None).
+    { intros j Hj. destruct (Hfits j Hj) as (W & Ef & Hf). exists W. split; [exact Ef|]. split; [exact Hf|].
+      destruct (pw_find_id _ _ _ Ef) as [Hid Hin]. apply Hfresh; [exact Hin|rewrite Hid; exact Hj]. }
+    destruct (Hall i (or_introl eq_refl)) as (W & Ef & Hfit & F1 & F2).
+    destruct (w_load p s W) as [W' r] eqn:EW.
+    destruct (winv_load tbl p s W W' r (pw_find_forall _ _ _ _ (pi_workers _ HI) Ef) (conj F1 F2) EW) as [HW' Href].
+    destruct r as [[]|e1].
+    - (* served: the request is non-negative, so everything is served *)
+      assert (Hq : nonneg_vec (s_req s)).
+      { unfold w_load in EW. destruct (r_allocate_multiple (w_res W) (s_req s) (CProf p)) as [R [[]|e2]] eqn:Ea; [|discriminate].
+        eapply allocate_multiple_ok_nonneg; eauto. }
+      pose proof (p_each_load_all_ok p s Hb Hq (i :: ids) (p_workers P) Hnd (pi_workers _ HI) Hall) as Hok.
+      destruct (p_each (w_load p s) (i :: ids) (p_workers P)) as [ws r]. cbn [snd fst] in *. subst r. discriminate.
+    - cbn [p_each]. rewrite Ef, EW. cbn [fst snd]. intros _. rewrite (Href e1 eq_refl).
+      destruct (pw_find_id _ _ _ Ef) as [Hid _]. rewrite <- Hid in Ef. rewrite (pw_set_same _ _ Ef). destruct P; reflexivity.
+  Qed.
+
   Lemma pinv_evict : forall p wid P, PInv P -> PInv (fst (p_evict p wid P)).
   Proof.
     intros p wid P HI. unfold p_evict.
